@@ -13,16 +13,23 @@ namespace Qco
 def pickLatest (best : Nat × Int) (xs : List (Nat × Int)) : Nat × Int :=
   xs.foldl (fun b x => if x.2 > b.2 then x else b) best
 
-/-- minimum of a list of start times (`+inf` of the code is unreachable: callers pass non-empty lists). -/
-def minStart : List Int → Int
+/-- minimum of a non-empty list of times (`0` for the empty list, which callers never pass). -/
+def minOf : List Int → Int
   | [] => 0
   | x :: xs => xs.foldl (fun m y => if y < m then y else m) x
 
-/-- `CircuitCompositeOperation.duration` given the start times of the depth-1 nodes and the end times
-    of the leaf nodes (pinned behaviour; see R2). -/
-def spanDur (headStarts leafEnds : List Int) : Int :=
-  let rel0 := minStart headStarts
-  leafEnds.foldl (fun tot e => if e - rel0 > tot then e - rel0 else tot) 0
+/-- maximum of a non-empty list of times. -/
+def maxOf : List Int → Int
+  | [] => 0
+  | x :: xs => xs.foldl (fun m y => if y > m then y else m) x
+
+/-- `CircuitCompositeOperation._lead_and_span` given the start times of the depth-1 nodes and the
+    (start, end) interval of every node (nested blocks already shifted by their own lead):
+    lead = earliest head start − earliest start, span = latest end − earliest start. -/
+def leadSpan (headStarts : List Int) (intervals : List (Int × Int)) : Int × Int :=
+  let earliest := minOf (intervals.map (·.1))
+  let latest := maxOf (intervals.map (·.2))
+  (minOf headStarts - earliest, latest - earliest)
 
 /-- `RelationLink.get_start_time` once the reference's start and end are known. -/
 def linkStart (rel : Rel) (refStartEnd : Option (Int × Int)) (ownDur : Int) : Int :=
@@ -35,17 +42,28 @@ def linkStart (rel : Rel) (refStartEnd : Option (Int × Int)) (ownDur : Int) : I
     | .je => e - ownDur
 
 mutual
-/-- duration of object `o`. -/
-def evDur (w : World) : Nat → Nat → Option Int
+/-- (lead, span) of object `o`; a leaf has lead 0 and span = its duration. -/
+def evLeadSpan (w : World) : Nat → Nat → Option (Int × Int)
   | 0, _ => none
   | f+1, o =>
     let op := w.op o
     if op.isComp then
-      if op.graph.isEmpty then some 0 else do
+      if op.graph.isEmpty then some (0, 0) else do
         let hs ← (heads op.graph).mapM (fun n => evStart w f n)
-        let es ← (leaves op.graph).mapM (fun n => evEnd w f n)
-        some (spanDur hs es)
-    else some (w.leafDur op.dur)
+        let ivs ← (listing op.graph).mapM (fun n => evInterval w f n)
+        some (leadSpan hs ivs)
+    else some (0, w.leafDur op.dur)
+/-- interval occupied by node `n` inside its block: a nested block is shifted by its lead. -/
+def evInterval (w : World) : Nat → Nat → Option (Int × Int)
+  | 0, _ => none
+  | f+1, n => do
+    let s ← evStart w f n
+    let (lead, span) ← evLeadSpan w f n
+    some (s - lead, s - lead + span)
+/-- duration of object `o`. -/
+def evDur (w : World) : Nat → Nat → Option Int
+  | 0, _ => none
+  | f+1, o => (evLeadSpan w f o).map (·.2)
 /-- start time of object `o`. -/
 def evStart (w : World) : Nat → Nat → Option Int
   | 0, _ => none
@@ -81,11 +99,11 @@ def evRef (w : World) : Nat → Nat → Option (Option Nat)
 end
 
 /-- fuel that is never exhausted on an acyclic world. -/
-def World.fuel (w : World) : Nat := 4 * (w.ops.size + w.links.size) + 8
+def World.fuel (w : World) : Nat := 6 * (w.ops.size + w.links.size) + 8
 
 /-! ### memoised evaluator (executed by the driver) -/
 
-inductive Qry | dur (o : Nat) | start (o : Nat) | fin (o : Nat) | ref (l : Nat)
+inductive Qry | dur (o : Nat) | start (o : Nat) | fin (o : Nat) | ref (l : Nat) | lead (o : Nat)
   deriving DecidableEq, Hashable, Repr
 
 structure Memo where
@@ -129,10 +147,39 @@ def go (w : World) : Nat → Qry → EvalM (Option Int)
             match ← mapMOpt (fun n => go w f (.start n)) (heads op.graph) with
             | none => pure none
             | some hs =>
-              match ← mapMOpt (fun n => go w f (.fin n)) (leaves op.graph) with
+              match ← mapMOpt (fun n => do
+                  match ← go w f (.start n) with
+                  | none => pure none
+                  | some s =>
+                    match ← go w f (.lead n) with
+                    | none => pure none
+                    | some ld =>
+                      match ← go w f (.dur n) with
+                      | none => pure none
+                      | some sp => pure (some (s - ld, s - ld + sp))) (listing op.graph) with
               | none => pure none
-              | some es => pure (some (spanDur hs es))
+              | some ivs => pure (some (leadSpan hs ivs).2)
         else pure (some (w.leafDur op.dur))
+      | .lead o => do
+        let op := w.op o
+        if op.isComp then
+          if op.graph.isEmpty then pure (some 0) else do
+            match ← mapMOpt (fun n => go w f (.start n)) (heads op.graph) with
+            | none => pure none
+            | some hs =>
+              match ← mapMOpt (fun n => do
+                  match ← go w f (.start n) with
+                  | none => pure none
+                  | some s =>
+                    match ← go w f (.lead n) with
+                    | none => pure none
+                    | some ld =>
+                      match ← go w f (.dur n) with
+                      | none => pure none
+                      | some sp => pure (some (s - ld, s - ld + sp))) (listing op.graph) with
+              | none => pure none
+              | some ivs => pure (some (leadSpan hs ivs).1)
+        else pure (some 0)
       | .start o => do
         match ← go w f (.dur o) with
         | none => pure none
